@@ -244,23 +244,36 @@ structure Out where
   probs : List (List Rat)
 deriving Repr
 
-/-- `_fit_core(embedding, labels, index_train, index_test)`; `sel i dists` are the positions (in
+/-- number of columns of `probs`: `np.max(labels) + 1` -/
+def nCols (labels : List Int) : Nat := ((labels.foldl max 0) + 1).toNat
+
+/-- `index_train = np.flatnonzero(labels >= 0)` -/
+def trainIdx (labels : List Int) : List Nat :=
+  (List.range labels.length).filter fun i => 0 ≤ labels.getD i (-1)
+
+/-- `labels[neighbors]` of test node `i`: labels of the `k` selected labelled nodes -/
+def neighbourLabels (emb : List (List Rat)) (labels : List Int) (k : Nat)
+    (sel : Nat → List Rat → Nat → List Nat) (i : Nat) : List Int :=
+  (sel i (distances emb (trainIdx labels) (getRow emb i)) k).map fun p =>
+    labels.getD ((trainIdx labels).getD p 0) (-1)
+
+/-- row `i` of `probs`: one-hot for a labelled node, normalised label counts of the neighbours otherwise -/
+def row (emb : List (List Rat)) (labels : List Int) (k : Nat)
+    (sel : Nat → List Rat → Nat → List Nat) (i : Nat) : List Rat :=
+  if 0 ≤ labels.getD i (-1) then
+    tab (nCols labels) fun q => if (q : Int) == labels.getD i (-1) then 1 else 0
+  else
+    normalizeRow (tab (nCols labels) fun q =>
+      (((neighbourLabels emb labels k sel i).filter (· == (q : Int))).length : Rat))
+
+/-- `_fit_core(embedding, labels, index_train, index_test)`; `sel i dists k` are the positions (in
     `index_train`) returned by `np.argpartition(distances, n_neighbors)[:n_neighbors]` for test node `i`.
     Returns `none` when there is no labelled node (the code fails inside numpy). -/
 def fitCore (emb : List (List Rat)) (labels : List Int) (kArg : Nat)
     (sel : Nat → List Rat → Nat → List Nat) : Option Out :=
-  let n := labels.length
-  let train := (List.range n).filter fun i => 0 ≤ labels.getD i (-1)
-  if train.isEmpty then none else
-  let k := (checkNeighbors kArg train.length).toNat
-  let nCols := ((labels.foldl max 0) + 1).toNat
-  let rows : List (List Rat) := tab n fun i =>
-    let li := labels.getD i (-1)
-    if 0 ≤ li then tab nCols fun q => if (q : Int) == li then 1 else 0
-    else
-      let ds := distances emb train (getRow emb i)
-      let nb := (sel i ds k).map fun p => labels.getD (train.getD p 0) (-1)
-      normalizeRow (tab nCols fun q => ((nb.filter (· == (q : Int))).length : Rat))
+  if (trainIdx labels).isEmpty then none else
+  let k := (checkNeighbors kArg (trainIdx labels).length).toNat
+  let rows := tab labels.length (row emb labels k sel)
   some ⟨rows.map fun r => (argmax r : Int), rows⟩
 
 end Knn
